@@ -1215,7 +1215,7 @@ def check_c07(rep):
     quick = rep.tier == "quick"
     wd = workdir("C07")
     psets = ["bfv_8_17_50,50,50,50", "bgv_8_17_50,50,50,50", "bfv_4_17_30,30", "bgv_4_17_40,30,40", "bfv_8_12289_40,40,40",
-             "bfv_8_1125899906842817_60,60,60", "bfv_4_1099511627777_50,50,50"]      # plain moduli of 51 and 41 bits
+             "bfv_8_1125899906842817_60,60,60", "bfv_4_1099511627777_50,50,50", "bgv_8_1099511627777_50,50,50"]      # plain moduli of 51 and 41 bits
     if not quick:
         psets += ["bfv_16_97_55,55,55,55,55", "bgv_16_97_60,60,60,60", "bfv_8_17_60,60,60,60,60,60,60", "bgv_8_257_25,30,35,40,45", "bfv_4_5_20,20"]
     raw = []
